@@ -11,7 +11,7 @@ Rule families (DESIGN.md §10):
        progress, raw-case taint, scratch-builder typestate                                     (rules/panics.py, builder.py, ...)
   C*   type-level / inventory rules: trait-solver obligations, statics, effect inventory       (rules/stateless.py, facade.py)
 """
-from .rules import (builder, dsvm, facade, facadevm, lexeval, lexical, panics, progress, scanner, scanvm, stateless,
+from .rules import (builder, dsvm, facade, facadevm, lexeval, lexical, panics, phrases, progress, scanner, scanvm, stateless,
                     textflow, textvm)
 
 TRUST_COMMON = [
@@ -63,10 +63,12 @@ T_VM = 'static analysis: abstract interpretation of rustc MIR against a finite a
 
 # ------------------------------------------------------------------------------------------------------------------
 reg('C01', 'other',
-    [lexeval.rule_lex_card, lexical.rule_scale_contexts, lexical.rule_compose_contexts, lexeval.rule_split_closure, lexeval.rule_zero_arm,
-     lexeval.rule_conj, lexeval.rule_neg_contexts],
-    "Decides the lexical mechanism of the cardinal round-trip by evaluating each language's apply (and what it calls: lemmatizer, splitter model, "
-    "flags) on the frozen reference lexicon: A1 every core cardinal form (7 languages, ~350 forms incl. plural/inflected scale words, regional "
+    [phrases.rule_roundtrip, textvm.rule_word_splitter, lexeval.rule_lex_card, lexical.rule_scale_contexts, lexical.rule_compose_contexts, lexeval.rule_split_closure,
+     lexeval.rule_zero_arm, lexeval.rule_conj, lexeval.rule_neg_contexts],
+    "A0-ROUNDTRIP: the validator path — the provided exec_group, the language's apply and the crate's own DigitString, all interpreted from MIR — "
+    "turns the standard spelling of n and its orthographic variants (hyphen/space, optional conjunction, regional forms) into exactly the digits "
+    "of n, for every n < 1000 (10 000 thorough) and structural samples up to 10^9, in all seven languages. Word-level diagnosis by evaluating "
+    "apply on the frozen reference lexicon: A1 every core cardinal form (7 languages, ~350 forms incl. plural/inflected scale words, regional "
     "tens, national variants) is accepted on the builder state its class requires and issues exactly the instruction its value prescribes (put of "
     "its digits; de/nl tens put_digit_at; scale words shift 2/3/6/9/12; French vigesimal forms on 60/80/4); A1b every scale word after every "
     "multiplier of the grammar table, refused after the forbidden ones; A1c every (first word, following class) pair the grammar composes is "
@@ -91,8 +93,8 @@ reg('C02', 'other',
     MACHINE + ' The abstract language of the scanner model stands for the seven interpreters (the scanner is generic over L).',
     T_VM, 'DESIGN.md §10.3')
 reg('C03', 'other',
-    [_c03_sites, scanvm.rule_validator_entry, panics.rule_digit_args, progress.rule_loops, progress.rule_recursion, scanvm.rule_scanner_total,
-     scanvm.rule_occurrence_wellformed, scanvm.rule_replace_tokenwise, textvm.rule_tokenizer, dsvm.rule_builder_cases],
+    [_c03_sites, scanvm.rule_validator_entry, lexeval.rule_digit_ops, progress.rule_loops, progress.rule_recursion, scanvm.rule_scanner_total,
+     scanvm.rule_occurrence_wellformed, scanvm.rule_replace_tokenwise, textvm.rule_tokenizer, textvm.rule_word_splitter, dsvm.rule_builder_cases],
     "B1 the complete inventory of panic-capable sites in the library MIR (Assert terminators + calls to partial callees) with each site discharged "
     "by a dominating guard (difference-constraint prover over branch facts), constant call-site arguments, constant constructor input or a named "
     "instance whose guards are checked; a site the prover cannot discharge is reported only if the bounded case tables of the abstract machine that "
@@ -144,8 +146,11 @@ reg('C07', 'other',
     MACHINE + ' Agreement on the real vocabularies follows only to the extent that they behave like the abstract language classes.',
     T_VM + '; ' + T_LEX + '; MIR write-before-Err reachability', 'DESIGN.md §10.2, §10.3')
 reg('C08', 'other',
-    [lexeval.rule_neg_contexts, lexical.rule_block_contexts, lexeval.rule_flags_lifecycle, lexeval.rule_conj, lexeval.rule_zero_arm, dsvm.rule_builder_cases],
-    "A7 each unit / teen / tens / scale word, evaluated on the builder states in which the language forbids it (unit after a teen or tens, second "
+    [phrases.rule_pairs, lexeval.rule_neg_contexts, lexical.rule_block_contexts, lexeval.rule_flags_lifecycle, lexeval.rule_conj, lexeval.rule_zero_arm,
+     dsvm.rule_builder_cases],
+    "A0-NO-FUSION: for pairs of numbers below 100 (29 x 29 representative values; all 99 x 99 thorough), with and without the conjunction "
+    "between them, the validator path accepts the phrase as ONE number only when the words are (a variant of) the standard spelling of a number, "
+    "and then with its digits. A7 each unit / teen / tens / scale word, evaluated on the builder states in which the language forbids it (unit after a teen or tens, second "
     "thousand, ordinal stems on a non-empty builder, pt without conjunction), is refused; A7b the flags a word stores block exactly the following words "
     "of the grammar table and no others; A7c flags are stored on success, cleared on failure; A10 the conjunction is Incomplete only inside a number; "
     "A6 zero is a plain put(0); V12 the builder accepts zeros only while the value is zero, keeps them, and refuses occupied positions.",
@@ -162,10 +167,12 @@ reg('C09', 'other',
     'The hold/release policy compared, on the scanner\'s complete case tables, with the policy as the property states it.',
     MACHINE, T_VM, 'DESIGN.md §10.3')
 reg('C10', 'other',
-    [scanvm.rule_fresh_start, scanner.rule_scratch_hygiene, dsvm.rule_builder_cases],
+    [scanvm.rule_fresh_start, lexeval.rule_neuf_annotate, lexeval.rule_o_annotate, scanner.rule_scratch_hygiene, dsvm.rule_builder_cases],
     "V10 on every token script the first word after a finished number is offered to apply on an empty, non-ordinal integer builder in integer mode; "
     "scripts A + [word word word .] + B give the occurrences of A then those of B at thresholds 0, 10, 100; punctuation keeps two numbers apart; "
-    "B7 typestate (path-sensitive): the scratch builder of each annotation pass is fresh whenever it is handed to apply; V12 reset() restores the state "
+    "A-NEUF-ANNOTATE / A-O-ANNOTATE: the French and English ambiguity passes, evaluated with the crate's own digit builder on texts with two "
+    "ambiguous words, judge each by its own neighbours (a scratch builder left dirty by the first flips the second); B7 typestate "
+    "(path-sensitive): the scratch builder of each annotation pass is fresh whenever it is handed to apply; V12 reset() restores the state "
     "of new() (all queries and fields). " + MACHINE,
     'Context independence decided on the scanner\'s case tables (fresh start, A+separator+B) and by a typestate analysis of the scratch builders.',
     MACHINE, T_VM + '; MIR typestate dataflow', 'DESIGN.md §10.3, §10.5')
@@ -222,8 +229,9 @@ reg('C15', 'other',
     'Lazy/batch agreement, bounded look-ahead and both token hints decided on complete case tables of the two drivers over all token scripts.',
     MACHINE, T_VM, 'DESIGN.md §10.3')
 reg('C16', 'other',
-    [lexeval.rule_zero_arm, lexical.rule_zero_invariance, dsvm.rule_builder_cases],
-    "A6 the zero words issue put(0) whatever the builder holds; A9b for every core cardinal word, scale-word context and group path, apply evaluated on a "
+    [phrases.rule_zeros_phrases, lexeval.rule_zero_arm, lexical.rule_zero_invariance, dsvm.rule_builder_cases],
+    "A0-LEADING-ZEROS: k = 1..3 zeros followed by the spelling of n validate to k zeros + digits of n (20 values of n up to 2 000 000, seven "
+    "languages), a zero after a number is refused, a lone zero is 0. A6 the zero words issue put(0) whatever the builder holds; A9b for every core cardinal word, scale-word context and group path, apply evaluated on a "
     "builder with 1, 3, 6 leading zeros decides and instructs exactly as with none; V12 the builder counts a zero only while the value is zero, keeps the "
     "zeros in rendering / length / emptiness, refuses a zero after a non-zero digit.",
     'Leading zeros decided by evaluation (zeros never change how the next word is read) and by the builder\'s case table (zeros kept, never appended).',
